@@ -49,11 +49,34 @@ def load_findings():
 _MOD = None
 
 
+class CaseTimeout(BaseException):
+    pass
+
+
+def _alarm(signum, frame):
+    raise CaseTimeout()
+
+
+CASE_TIMEOUT = int(os.environ.get("VERIF_CASE_TIMEOUT", "0"))
+
+
 def _worker(case):
+    import signal
     t0 = time.time()
+    # a changed tree can make one case run (nearly) forever, e.g. a symbolic rewrite that explodes: every case runs under an
+    # alarm and a case that does not finish is reported as a violation instead of hanging the check
+    limit = CASE_TIMEOUT or int(getattr(_MOD, "CASE_TIMEOUT_S", 1200))
+    try:
+        signal.signal(signal.SIGALRM, _alarm)
+        signal.alarm(limit)
+    except (ValueError, AttributeError):
+        pass
     try:
         with quiet():
             r = _MOD.eval_case(case)
+    except CaseTimeout:
+        r = {"n": 1, "fails": [{"key": "timeout:case-did-not-finish", "what": f"case did not finish within {limit} s: "
+                                f"{json.dumps(case, default=str)[:300]}"}]}
     except BaseException as e:  # a crash while exercising the implementation is reported, never swallowed
         tb = traceback.format_exc()
         last = traceback.extract_tb(e.__traceback__)[-1]
@@ -67,6 +90,10 @@ def _worker(case):
                 }
             ],
         }
+    try:
+        signal.alarm(0)
+    except (ValueError, AttributeError):
+        pass
     r.setdefault("n", 1)
     r.setdefault("fails", [])
     r["wall"] = time.time() - t0
